@@ -80,6 +80,7 @@ func main() {
 	}
 	if *layoutFlag {
 		rules.DumpLayout(p)
+		rules.DumpIndexSites(p)
 		return
 	}
 	if *dump != "" {
